@@ -226,6 +226,8 @@ func c01Mutate(r *Rng, b []byte) []byte {
 	return c
 }
 
+func PickU64(r *Rng, l []uint64) uint64 { return l[r.Intn(len(l))] }
+
 func c01FieldSoup(r *Rng) []byte {
 	var b []byte
 	putv := func(x uint64) {
@@ -253,6 +255,13 @@ func c01FieldSoup(r *Rng) []byte {
 			}
 		case 2:
 			ln := r.Intn(6)
+			if r.P(1, 10) { // absurd declared lengths: beyond the data, beyond int64
+				putv(PickU64(r, []uint64{1 << 63, 1<<63 + 1, ^uint64(0), 1 << 62, 1<<32 + 5, 1 << 31}))
+				for j := 0; j < ln; j++ {
+					b = append(b, byte(r.Intn(256)))
+				}
+				continue
+			}
 			putv(uint64(ln))
 			if tag == 6 && r.P(2, 3) {
 				ln = 0
